@@ -320,8 +320,13 @@ impl P<'_> {
                     whole: (qs, qe),
                 });
                 self.printed.constructs.push((self.module, qs, qe));
-                // `q.name` without spaces (the lexer would accept spaces too).
-                self.out.push('.');
+                // `q.name` without spaces; with blanks around the dot when asked for (the
+                // lexer accepts both).
+                if SPACED_DOTS.with(|c| c.get()) {
+                    self.out.push_str(" . ");
+                } else {
+                    self.out.push('.');
+                }
                 let start = self.out.len();
                 self.out.push_str(n);
                 let end = self.out.len();
@@ -564,6 +569,20 @@ impl P<'_> {
 /// Strength of an expression when it sits in a term position (used by rewrites).
 pub fn is_term(e: &E) -> bool {
     strength(e) == S_TERM
+}
+
+thread_local! {
+    /// Print qualified names as `q . name` (set by callers that want non-identifier positions
+    /// inside a variable).
+    pub static SPACED_DOTS: std::cell::Cell<bool> = const { std::cell::Cell::new(false) };
+}
+
+/// `print` with blanks around the dot of every qualified name.
+pub fn print_spaced_dots(p: &Program) -> Printed {
+    SPACED_DOTS.with(|c| c.set(true));
+    let r = print(p);
+    SPACED_DOTS.with(|c| c.set(false));
+    r
 }
 
 pub fn print(p: &Program) -> Printed {
